@@ -137,32 +137,10 @@ fn run_one(c: &Case, mode: u8, cap: &mut Capture) -> Result<(Vec<u8>, Vec<u8>, (
         Case::Snippet(_, s) | Case::Program(_, s) | Case::Pressure(_, s) => *s,
         Case::Direct(_) | Case::DirectN(_) => 0,
     };
-    // Independent expectation for the instruction-stepped mode: the reference CPU
-    // (models::sm83 + models::irq on a twin) says which bytes the program stores to
-    // 0xFF01/0xFF02 and in which order - including the order of the two bytes of a
-    // 16-bit store. Runs before the capture starts (the twin transmits too).
-    let mut model_stream: Option<(Vec<u8>, bool)> = None;
-    if steps > 0 && !matches!(c, Case::Pressure(op, _) if *op != 0xfe) {
-        let mut r = crate::refmach::RefMachine::new(i::M::new(&rom));
-        let mut ws: Vec<(u16, u8)> = Vec::new();
-        let mut complete = true;
-        for _ in 0..steps {
-            // block-stepped modes: the reference machine in block steps (the order of a
-            // handler's bytes relative to the main program's depends on where interrupts are taken)
-            let info = if mode == 0 { r.step_instruction() } else { r.step_block(100_000) };
-            if info.out_of_domain.is_some() {
-                complete = false;
-                break;
-            }
-            ws.extend(info.writes.iter().cloned());
-            if let models::irq::Outcome::Dispatched { pushes, .. } = info.irq {
-                ws.extend(pushes.iter().cloned());
-            }
-        }
-        let mut sb = 0u8;
-        let mut st = (0, 0, 0);
-        model_stream = Some((expected_from_writes(&ws, &mut sb, &mut st), complete));
-    }
+    let want_model = steps > 0 && !matches!(c, Case::Pressure(op, _) if *op != 0xfe);
+    // clocks delivered by each step of the machine under test (block modes: the reference
+    // follows the emulator's own block extents)
+    let mut deltas: Vec<u64> = Vec::new();
     m.trace_enable(true);
     let _ = m.trace_take();
     cap.start();
@@ -183,17 +161,19 @@ fn run_one(c: &Case, mode: u8, cap: &mut Capture) -> Result<(Vec<u8>, Vec<u8>, (
             if !crate::refmach::executable(m.regs().pc as u16) && m.run_state() == crate::mach::RUN {
                 break;
             }
+            let before = m.clocks_total();
             if mode == 0 {
                 m.step_update();
             } else {
                 step_block_mode(m);
             }
+            deltas.push(m.clocks_total().wrapping_sub(before));
         }
     });
     let got = cap.stop();
     m.trace_enable(false);
     let writes: Vec<(u16, u8)> = m.trace_take().iter().filter(|t| t.0 == 1).map(|t| (t.1, t.2)).collect();
-    if let Err(msg) = res {
+    if let Err(msg) = &res {
         if msg.contains("Invalid OP") || msg.contains("TRIED TO EXECUTE") {
             // a runaway program executing data: the stream up to here is still checked
         } else {
@@ -203,6 +183,31 @@ fn run_one(c: &Case, mode: u8, cap: &mut Capture) -> Result<(Vec<u8>, Vec<u8>, (
     let mut sb = 0u8;
     let mut stats = (0, 0, 0);
     let want = expected_from_writes(&writes, &mut sb, &mut stats);
+    // Independent expectation: the reference CPU (models::sm83 + models::irq on a twin) says
+    // which bytes the program stores to 0xFF01/0xFF02 and in which order - including the
+    // order of the two bytes of a 16-bit store. In the block-stepped modes it consumes, step
+    // by step, the time the machine under test delivered. Runs after the capture has ended
+    // (the twin transmits too).
+    let mut model_stream: Option<(Vec<u8>, bool)> = None;
+    if want_model {
+        let mut r = crate::refmach::RefMachine::new(i::M::new(&rom));
+        let mut ws: Vec<(u16, u8)> = Vec::new();
+        let mut complete = deltas.len() as u32 == steps && res.is_ok();
+        for d in &deltas {
+            let info = if mode == 0 { r.step_instruction() } else { r.step_block_as(*d) };
+            if info.out_of_domain.is_some() {
+                complete = false;
+                break;
+            }
+            ws.extend(info.writes.iter().cloned());
+            if let models::irq::Outcome::Dispatched { pushes, .. } = info.irq {
+                ws.extend(pushes.iter().cloned());
+            }
+        }
+        let mut sb = 0u8;
+        let mut st = (0, 0, 0);
+        model_stream = Some((expected_from_writes(&ws, &mut sb, &mut st), complete));
+    }
     if let Some((ms, complete)) = model_stream {
         let ok = if complete { got == ms } else { got.starts_with(&ms) };
         if !ok {
